@@ -13,6 +13,7 @@ pub enum Prop {
     C01,
     C02,
     C06,
+    C03,
 }
 
 pub struct Header {
@@ -20,31 +21,58 @@ pub struct Header {
     pub id: String,
     pub shape: Option<Shape>,
     pub init: Option<Tok>,
+    /// second buffer's initial value (swap cases of C03)
+    pub init_b: Option<Tok>,
+    pub swap: bool,
     pub refuse: Vec<u32>,
+    /// C03: allocation end flush against the guard page (else the data start)
+    pub end_aligned: bool,
 }
 
 pub fn parse_header(line: &str) -> Header {
-    let bad = |id: &str| Header { id: id.to_string(), shape: None, init: None, refuse: vec![] };
+    let bad = |id: &str| Header { id: id.to_string(), shape: None, init: None, init_b: None, swap: false, refuse: vec![], end_aligned: false };
     let Some(t) = parse_toks(line) else { return bad("?") };
     if t.len() < 2 || t[0].atom() != Some("case") {
         return bad("?");
     }
     let id = t[1].atom().unwrap_or("?").to_string();
-    if t.len() < 4 || t.len() > 5 {
+    let swap = t.get(2).and_then(|x| x.atom()) == Some("swap");
+    let (si, nvals) = if swap { (3, 2) } else { (2, 1) };
+    if t.len() < si + 1 + nvals {
         return bad(&id);
     }
-    let shape = Shape::from_tok(&t[2]);
+    let shape = Shape::from_tok(&t[si]);
     let mut refuse = vec![];
-    if let Some(r) = t.get(4) {
-        let Some(list) = r.atom().and_then(|a| a.strip_prefix("refuse=")) else { return bad(&id) };
-        for k in list.split(',') {
-            match k.parse::<u32>() {
-                Ok(k) if k >= 1 => refuse.push(k),
-                _ => return bad(&id),
+    let mut end_aligned = false;
+    for opt in &t[si + 1 + nvals..] {
+        let Some(a) = opt.atom() else { return bad(&id) };
+        if let Some(list) = a.strip_prefix("refuse=") {
+            if swap || !refuse.is_empty() {
+                return bad(&id);
             }
+            for k in list.split(',') {
+                match k.parse::<u32>() {
+                    Ok(k) if k >= 1 => refuse.push(k),
+                    _ => return bad(&id),
+                }
+            }
+        } else if a == "layout=start" {
+            end_aligned = false;
+        } else if a == "layout=end" {
+            end_aligned = true;
+        } else {
+            return bad(&id);
         }
     }
-    Header { id, shape, init: Some(t[3].clone()), refuse }
+    Header {
+        id,
+        shape,
+        init: Some(t[si + 1].clone()),
+        init_b: if swap { Some(t[si + 2].clone()) } else { None },
+        swap,
+        refuse,
+        end_aligned,
+    }
 }
 
 /// What a generator may look at to produce the next op line.
@@ -80,6 +108,9 @@ pub struct CaseOut {
     pub lines: Vec<String>,
     pub grow_calls: u32,
     pub failed: bool,
+    /// (model value, absolute path of the innermost live level) after each op line (index i = after
+    /// line i; index 0 = initial state) — used to build swap cases
+    pub states: Vec<(Val, Vec<Step>)>,
 }
 
 pub struct Cx<'r> {
